@@ -45,6 +45,22 @@ def callee_kind(t):
     return None
 
 
+_LOCAL = re.compile(r"(?<![:.\w])[a-z_][a-z0-9_]*\b(?!\s*\(|::)")
+
+
+def signature(kind, desc):
+    """function-, name- and position-independent shape of a site: the kind and the operand expression with local variable
+    names and compiler temporaries abstracted (callee names, field names and constants kept).  Used to recognise a reviewed
+    site after a behaviour-preserving move (extracted helper, renamed local, renumbered closure)."""
+    return kind + "|" + _LOCAL.sub("$", desc)
+
+
+def key_signature(key):
+    fn, kind, rest = key.split("|", 2)
+    desc = rest.rsplit("|", 1)[0]
+    return signature(kind, desc)
+
+
 class Site:
     def __init__(self, fn, bb, kind, desc, sp, term, exp=False, mac=None):
         self.fn, self.bb, self.kind, self.desc, self.sp, self.term = fn, bb, kind, desc, sp, term
@@ -55,6 +71,7 @@ class Site:
 
     def finish_key(self):
         self.key = "%s|%s|%s|%d" % (self.fn, self.kind, self.desc, self.ordinal)
+        self.sig = signature(self.kind, self.desc)
 
 
 class Describer:
